@@ -31,6 +31,18 @@ def Err.isEof : Err → Bool
   | .cbor .eof => true
   | _ => false
 
+/-- Decoder results can be compared (for `decide`-checked examples and witnesses). -/
+instance {ε α} [DecidableEq ε] [DecidableEq α] : DecidableEq (Except ε α)
+  | .ok a, .ok b => if h : a = b then isTrue (by rw [h]) else isFalse (by intro h'; cases h'; exact h rfl)
+  | .error a, .error b => if h : a = b then isTrue (by rw [h]) else isFalse (by intro h'; cases h'; exact h rfl)
+  | .ok _, .error _ => isFalse (by intro h; cases h)
+  | .error _, .ok _ => isFalse (by intro h; cases h)
+
+/-- Did the decoder accept? -/
+def accepts {α} : Except Err α → Bool
+  | .ok _ => true
+  | .error _ => false
+
 /-- Lift a CBOR-level result. -/
 def liftC {α} : Except Dtn7.Cbor.Err α → Except Err α
   | .ok a => .ok a
